@@ -110,7 +110,8 @@ structure Good (s : LState) : Prop where
   exec_gc : s.exec.done = true → s.groupCancelled = true
   read_gc : s.read.done = true → s.groupCancelled = true
   send_gc : s.send.done = true → s.groupCancelled = true
-  ping_gc : s.ping.done = true → s.groupCancelled = true
+  -- with pings disabled the ping loop returns at once, on a healthy connection
+  ping_gc : s.ping.done = true → s.groupCancelled = true ∨ (s.pingOff = true ∧ s.ping = .exited none)
   gc_cause : s.main = .waiting → s.groupCancelled = true → s.parentCancelled = true ∨ s.groupErr.isSome = true
   close_par : s.closeRequested = true → s.parentCancelled = true
   par_close : s.main = .waiting → s.parentCancelled = true → s.closeRequested = true
@@ -153,7 +154,7 @@ theorem Good.waiting_of_ping {s : LState} (g : Good s) (h : s.ping = .running) :
 theorem Good.sock_open {s : LState} (g : Good s) (h : s.main = .waiting) : s.sockClosed = false := by
   rw [g.sock_eq, h]; rfl
 
-theorem good_begin (rx : List Ev) (tx : List OutEv) (cap : Nat) : Good (begin rx tx cap) := by
+theorem good_begin (rx : List Ev) (tx : List OutEv) (cap : Nat) (pingOff : Bool) : Good (begin rx tx cap pingOff) := by
   constructor <;> simp [begin, firstError, Loop.done, afterTd, isRet, emitsOf, resOf]
 
 /-- Loop actions: main is still waiting. -/
@@ -207,6 +208,9 @@ theorem good_pingTimeout {s s' : LState} (g : Good s) (h : step s .pingTimeout =
   loop_step g h
 
 theorem good_pingCancel {s s' : LState} (g : Good s) (h : step s .pingCancel = some s') : Good s' := by
+  loop_step g h
+
+theorem good_pingDisabled {s s' : LState} (g : Good s) (h : step s .pingDisabled = some s') : Good s' := by
   loop_step g h
 
 /-- Environment actions: main does not move. -/
@@ -303,6 +307,7 @@ theorem good_step {s s' : LState} (a : Act) (g : Good s) (h : step s a = some s'
   | sendCancel => exact good_sendCancel g h
   | pingTimeout => exact good_pingTimeout g h
   | pingCancel => exact good_pingCancel g h
+  | pingDisabled => exact good_pingDisabled g h
   | mainWait => exact good_mainWait g h
   | mainClosedEv => exact good_mainClosedEv g h
   | mainTeardown => exact good_mainTeardown g h
@@ -311,7 +316,7 @@ theorem good_step {s s' : LState} (a : Act) (g : Good s) (h : step s a = some s'
 
 theorem good_of_reach {s : LState} (h : Reach s) : Good s := by
   induction h with
-  | init rx tx cap => exact good_begin rx tx cap
+  | init rx tx cap pingOff => exact good_begin rx tx cap pingOff
   | step a _ hstep ih => exact good_step a ih hstep
 
 end Girc.Proofs.Life
